@@ -166,6 +166,10 @@ class Model:
             if cur == want or len(cur) != len(want) or (a.vararg is not None) != (spec['vararg'] is not None) or len(a.kwonlyargs) != len(spec['kwonly']):
                 continue
             mapping = {c: w for c, w in zip(cur, want) if c != w}
+            # a parameter whose ROLE changed is not a renaming: a former `*_shape` (tuple) parameter that is now written through / annotated as an array keeps its new name
+            from .domains.alias import _used_as_array
+            if any(w.endswith('_shape') and _used_as_array(f.node, c) for c, w in mapping.items()):
+                continue
             # locals of the body that already use a canonical name step aside first
             body_names = {n.id for st in f.node.body for n in ast.walk(st) if isinstance(n, ast.Name)}
             nested_args = {n.arg for st in f.node.body for n in ast.walk(st) if isinstance(n, ast.arg)}
